@@ -274,7 +274,7 @@ def handle_path_command(args: argparse.Namespace) -> None:  # noqa: PLR0912
 
     try:
         matches = path.findall(args.file)
-    except json.JSONDecodeError as err:
+    except (json.JSONDecodeError, UnicodeDecodeError) as err:
         if args.debug:
             raise
         sys.stderr.write(f"target document json decode error: {err}\n")
@@ -306,7 +306,7 @@ def handle_pointer_command(args: argparse.Namespace) -> None:
             unicode_escape=not args.no_unicode_escape,
             uri_decode=args.uri_decode,
         )
-    except json.JSONDecodeError as err:
+    except (json.JSONDecodeError, UnicodeDecodeError) as err:
         if args.debug:
             raise
         sys.stderr.write(f"target document json decode error: {err}\n")
@@ -344,7 +344,7 @@ def handle_patch_command(args: argparse.Namespace) -> None:
             unicode_escape=not args.no_unicode_escape,
             uri_decode=args.uri_decode,
         )
-    except json.JSONDecodeError as err:
+    except (json.JSONDecodeError, UnicodeDecodeError) as err:
         if args.debug:
             raise
         sys.stderr.write(f"target document json decode error: {err}\n")
